@@ -1,0 +1,92 @@
+//! Verification hook, only compiled with `--cfg tiny_std_verif` (never set by the
+//! repository's own build): builds an [`IoUring`] over caller-supplied ring memory so that a
+//! test harness can play the kernel side of the rings, with ring sizes and starting values of
+//! the free-running head/tail counters of its choosing.
+use core::ptr::NonNull;
+use core::sync::atomic::AtomicU32;
+
+use crate::platform::{
+    Fd, IoUring, IoUringCompletionQueueEntry, IoUringParamFlags, IoUringSubmissionQueueEntry,
+    UringCompletionQueue, UringSubmissionQueue,
+};
+
+/// Addresses and constants of a ring pair laid out by the caller.
+/// All addresses must be non-null, 4-byte aligned (`sqes`: 64, `cqes`: 16) and stay valid for
+/// as long as the ring built from them is used.
+#[derive(Debug, Copy, Clone)]
+pub struct VerifRingLayout {
+    pub fd: Fd,
+    pub flags: IoUringParamFlags,
+    pub sq_ring_ptr: usize,
+    pub sq_ring_size: usize,
+    pub sq_khead: usize,
+    pub sq_ktail: usize,
+    pub sq_kflags: usize,
+    pub sq_kdropped: usize,
+    pub sq_array: usize,
+    pub sq_entries: u32,
+    pub sqes: usize,
+    pub cq_ring_ptr: usize,
+    pub cq_ring_size: usize,
+    pub cq_khead: usize,
+    pub cq_ktail: usize,
+    pub cq_koverflow: usize,
+    pub cq_entries: u32,
+    pub cqes: usize,
+    /// starting value of the application-local submission head and tail
+    pub sq_local_head: u32,
+    pub sq_local_tail: u32,
+}
+
+impl IoUring {
+    /// Build an `IoUring` over the memory described by `l`.
+    /// Dropping the result unmaps `sq_ring_ptr`, `cq_ring_ptr` and `sqes` and closes `fd`
+    /// like any other `IoUring`; wrap it in `ManuallyDrop` if that is not wanted.
+    /// # Safety
+    /// See [`VerifRingLayout`]
+    #[must_use]
+    pub unsafe fn verif_from_raw_parts(l: &VerifRingLayout) -> IoUring {
+        let a = |addr: usize| NonNull::new_unchecked(addr as *mut AtomicU32);
+        IoUring {
+            fd: l.fd,
+            flags: l.flags,
+            submission_queue: UringSubmissionQueue {
+                ring_size: l.sq_ring_size,
+                ring_ptr: l.sq_ring_ptr,
+                kernel_head: a(l.sq_khead),
+                kernel_tail: a(l.sq_ktail),
+                kernel_flags: a(l.sq_kflags),
+                kernel_dropped: a(l.sq_kdropped),
+                kernel_array: a(l.sq_array),
+                head: l.sq_local_head,
+                tail: l.sq_local_tail,
+                ring_mask: l.sq_entries - 1,
+                ring_entries: l.sq_entries,
+                entries: NonNull::new_unchecked(l.sqes as *mut IoUringSubmissionQueueEntry),
+            },
+            completion_queue: UringCompletionQueue {
+                ring_size: l.cq_ring_size,
+                ring_ptr: l.cq_ring_ptr,
+                kernel_head: a(l.cq_khead),
+                kernel_tail: a(l.cq_ktail),
+                kernel_flags: None,
+                kernel_overflow: a(l.cq_koverflow),
+                ring_mask: l.cq_entries - 1,
+                ring_entries: l.cq_entries,
+                entries: NonNull::new_unchecked(l.cqes as *mut IoUringCompletionQueueEntry),
+            },
+        }
+    }
+
+    /// Application-local submission head (entries up to here were published by a flush)
+    #[must_use]
+    pub fn verif_sq_local_head(&self) -> u32 {
+        self.submission_queue.head
+    }
+
+    /// Application-local submission tail (slots up to here were handed out)
+    #[must_use]
+    pub fn verif_sq_local_tail(&self) -> u32 {
+        self.submission_queue.tail
+    }
+}
